@@ -135,6 +135,29 @@ func main() {
 			}
 		}
 	}
+	// Scale: hand-off lists longer than 64 KiB (more than 1365 descriptors), which no machine shape
+	// produces but the format admits - many small RAM banks and a hand-off section large enough to
+	// hold their descriptors. The counts sit on both sides of the 16-bit and of twice the 16-bit
+	// boundary of the list length.
+	for _, n := range []int{1363, 1364, 1365, 1500, 2729, 2730, 2800} {
+		bigHob := fx.TdxSection{MemoryBase: 0x809000, MemorySize: 0x40000, Type: 2}
+		var many []ref.Interval
+		for i := 0; i < n; i++ {
+			many = append(many, ref.Interval{Start: 0x1000000 + uint64(i)*0x2000, Length: 0x1000})
+		}
+		for _, hobAttr := range []uint32{0, 1} {
+			for mode := ref.ModeDefault; mode <= ref.ModeLegacyMeasureAllEarlyAccept; mode++ {
+				n, hobAttr, mode := n, hobAttr, mode
+				jobs = append(jobs, func() {
+					h := bigHob
+					h.Attributes = hobAttr
+					secs := append(append([]fx.TdxSection(nil), fvLayouts[0].secs...), h)
+					id := fmt.Sprintf("layout=bfv3 hob=%#x(attr=%d) temps=0 banks=%d-one-page-banks mode=%d", h.MemorySize, hobAttr, n, mode)
+					oneImage(r, id, size, secs, many, mode)
+				})
+			}
+		}
+	}
 	r.ParallelFor(len(jobs), func(i int) { jobs[i]() })
 	r.Finish()
 }
